@@ -1,5 +1,6 @@
 import MpdProofs.Lemmas.Conn
 import MpdProofs.Lemmas.Flaky
+import MpdProofs.Lemmas.FlakyS
 /-!
 # C02 — parsed responses do not depend on how the byte stream is split into reads
 
@@ -213,5 +214,45 @@ example :
   constructor
   · decide +kernel
   · exact ⟨⟨2, rfl⟩, ⟨3, rfl⟩, ⟨2, rfl⟩, trivial⟩
+
+/-! ### any number of failed reads, blocking connection -/
+
+theorem C02_failed_reads_invisible_call_blocking (more : List Conn.ScriptPiece) (σ : BState) (b : SBuf)
+    (cs : List Bytes) (t : Term) (hio : IoChain t more) (hne : NonEmptyChunks (flatScript cs more)) (hinv : SInv b) :
+    ((recvRetryS σ b cs t more).1,
+      (recvRetryS σ b cs t more).2.1.data ++
+        (flatScript (recvRetryS σ b cs t more).2.2.2.1 (recvRetryS σ b cs t more).2.2.2.2.2).flatten) =
+      recvAll σ (b.data ++ (flatScript cs more).flatten) (lastTerm t more) :=
+  (recvRetryS_eq more σ b cs t hio hne hinv).1
+
+theorem C02_failed_reads_invisible_session_blocking (fuel : Nat) (b : SBuf) (cs : List Bytes) (t : Term)
+    (more : List Conn.ScriptPiece) (hio : IoChain t more) (hne : NonEmptyChunks (flatScript cs more)) (hinv : SInv b) :
+    sessionRetryS fuel 0 .initial b cs t more =
+      decodeAll fuel (b.data ++ (flatScript cs more).flatten) (lastTerm t more) := by
+  induction fuel generalizing b cs t more with
+  | zero => simp [sessionRetryS, decodeAll]
+  | succ fuel ih =>
+    rw [decodeAll_succ, sessionRetryS]
+    obtain ⟨h1, h2, h3, h4, h5, h6⟩ := recvRetryS_eq more .initial b cs t hio hne hinv
+    rcases hr : recvRetryS .initial b cs t more with ⟨it, b', σ', cs', t', more'⟩
+    rw [hr] at h1 h2 h3 h4 h5 h6
+    dsimp only at h1 h2 h3 h4 h5 h6
+    rw [← h1]
+    cases it with
+    | resp r =>
+      dsimp only
+      rw [h6 r rfl, ih b' cs' t' more' h5 h2 h3, h4]
+    | clean => rfl
+    | invalid => rfl
+    | unexpectedEof => rfl
+    | io k => rfl
+    | panic => rfl
+
+/-- non-vacuity (blocking, a 16-byte buffer that has to double): a failure inside a line, two in a row -/
+example :
+    sessionRetryS 10 0 .initial { cap := 16, data := [] } [str "foo: b"] (.ioerr 2)
+        [([str "ar\nx: y\n"], .ioerr 3), ([], .ioerr 2), ([str "OK\nz: 1\nOK\n"], .eof)] =
+      decodeAll 10 (str "foo: bar\nx: y\nOK\nz: 1\nOK\n") .eof := by
+  decide +kernel
 
 end Mpd.C02
